@@ -448,3 +448,97 @@ func returnsNonNilError(r *ssa.Return) bool {
 	}
 	return types.Identical(last.Type(), types.Universe.Lookup("error").Type())
 }
+
+// ---------- relational facts on CFG edges ----------
+
+type relFact struct {
+	X  ssa.Value
+	Op token.Token // one of LSS LEQ GTR GEQ EQL NEQ, already adjusted for the edge polarity
+	Y  ssa.Value
+}
+
+func negateOp(op token.Token) token.Token {
+	switch op {
+	case token.LSS:
+		return token.GEQ
+	case token.LEQ:
+		return token.GTR
+	case token.GTR:
+		return token.LEQ
+	case token.GEQ:
+		return token.LSS
+	case token.EQL:
+		return token.NEQ
+	case token.NEQ:
+		return token.EQL
+	}
+	return token.ILLEGAL
+}
+
+func flipOp(op token.Token) token.Token {
+	switch op {
+	case token.LSS:
+		return token.GTR
+	case token.LEQ:
+		return token.GEQ
+	case token.GTR:
+		return token.LSS
+	case token.GEQ:
+		return token.LEQ
+	}
+	return op
+}
+
+func factOf(cond ssa.Value, polarity bool) (relFact, bool) {
+	b, ok := cond.(*ssa.BinOp)
+	if !ok {
+		if u, ok := cond.(*ssa.UnOp); ok && u.Op == token.NOT {
+			return factOf(u.X, !polarity)
+		}
+		return relFact{}, false
+	}
+	op := b.Op
+	switch op {
+	case token.LSS, token.LEQ, token.GTR, token.GEQ, token.EQL, token.NEQ:
+	default:
+		return relFact{}, false
+	}
+	if !polarity {
+		op = negateOp(op)
+	}
+	return relFact{b.X, op, b.Y}, true
+}
+
+// edgeFacts returns the relational facts that hold when control flows along pred -> succ: the guards that dominate
+// pred plus the branch taken at the end of pred.
+func edgeFacts(pred, succ *ssa.BasicBlock) []relFact {
+	var out []relFact
+	for _, g := range guardsOf(pred) {
+		if f, ok := factOf(g.If.Cond, g.Succ == 0); ok {
+			out = append(out, f)
+		}
+	}
+	if i := ifOf(pred); i != nil && pred.Succs[0] != pred.Succs[1] {
+		if pred.Succs[0] == succ {
+			if f, ok := factOf(i.Cond, true); ok {
+				out = append(out, f)
+			}
+		} else if pred.Succs[1] == succ {
+			if f, ok := factOf(i.Cond, false); ok {
+				out = append(out, f)
+			}
+		}
+	}
+	return out
+}
+
+// blockFacts: facts that hold on entry to block b (dominating guards).
+func blockFacts(b *ssa.BasicBlock) []relFact {
+	var out []relFact
+	for _, g := range guardsOf(b) {
+		if f, ok := factOf(g.If.Cond, g.Succ == 0); ok {
+			out = append(out, f)
+		}
+	}
+	return out
+}
